@@ -18,14 +18,14 @@ PROPS = {
     },
     "C03": {
         "title": "Workflow precedence and data-transfer waits are respected",
-        "lean": ["TopsimProps.C03", "TopsimProofs.Bridge.Runtime", "TopsimProps.C03Traj"],
+        "lean": ["TopsimProps.C03", "TopsimProofs.Bridge.Runtime", "TopsimProps.C03Traj", "TopsimProps.L3Order"],
         "streams": [("default", 40, 600), ("contended", 16, 300), ("big", 6, 80), ("units", 8, 100)],
         "direct": ["c06"],
         "monitor": ["C03"],
     },
     "C04": {
         "title": "Everything runs exactly once and a completed run is quiescent",
-        "lean": ["TopsimProps.SysSafety", "TopsimProps.C04", "TopsimProps.C19", "TopsimProofs.Bridge.Queries", "TopsimProps.L3"],
+        "lean": ["TopsimProps.SysSafety", "TopsimProps.C04", "TopsimProps.C19", "TopsimProofs.Bridge.Queries", "TopsimProps.L3", "TopsimProps.C04Witness"],
         "streams": [("default", 32, 500), ("adversary", 24, 400), ("chaotic", 16, 300), ("edge", 16, 300), ("hotwait", 12, 200), ("batch", 12, 200)],
         "monitor": ["C04"],
     },
@@ -82,7 +82,7 @@ PROPS = {
     },
     "C13": {
         "title": "The event log is complete, correctly timed and causally ordered",
-        "lean": ["TopsimProps.C13", "TopsimProps.Kernel", "TopsimProps.C13Traj"],
+        "lean": ["TopsimProps.C13", "TopsimProps.Kernel", "TopsimProps.C13Traj", "TopsimProps.L3Order"],
         "streams": [("default", 32, 500), ("overlap", 16, 300), ("runlevel", 16, 300), ("runlevel-paused", 24, 400), ("edge", 24, 400)],
         "monitor": ["C13"],
     },
